@@ -25,6 +25,7 @@ type Plan struct {
 	Reverse  int    `json:"reverse,omitempty"`   // reverse calls to make before returning
 	RevBoom  bool   `json:"rev_boom,omitempty"`  // additionally reverse-call a client-side handler that panics
 	RevSlow  bool   `json:"rev_slow,omitempty"`  // additionally reverse-call a client-side handler that blocks until released
+	RevAlias bool   `json:"rev_alias,omitempty"` // additionally reverse-call through a tagged field that resolves via a client-side alias
 	ReactMs  int    `json:"react_ms,omitempty"`  // time the handler keeps running after its ctx was cancelled
 
 	// subscriptions
@@ -242,6 +243,18 @@ func (a *TokAPI) body(ctx context.Context, tok string, plan Plan) (Result, error
 			continue
 		}
 		revs = append(revs, id)
+	}
+	if plan.RevAlias {
+		if rc, ok := jsonrpc.ExtractReverseClient[RevClient](ctx); ok {
+			id, err := rc.Alias(ctx, tok)
+			if err != nil {
+				revs = append(revs, "!err:"+err.Error())
+			} else {
+				revs = append(revs, id)
+			}
+		} else {
+			revs = append(revs, "!absent")
+		}
 	}
 	if plan.RevSlow {
 		if rc, ok := jsonrpc.ExtractReverseClient[RevClient](ctx); ok {
